@@ -560,6 +560,63 @@ theorem shard_count_unobservable_pinned_partial (hL : E.Local) (R : Routes) (hv 
 
 end seq
 
+/-! ## node-global state: the script cache -/
+
+section scriptcache
+variable {S : Sig} {E : Exec S}
+
+/-- the sequential specification of the script commands: ONE cache, ONE store -/
+def specS (E : Exec S) (getOp : S.Op) (cache : NSet) (s : Store S.Val) : SCmd → (NSet × Store S.Val) × Reply
+  | .load i => ((NSet.insert i cache, s), .one .ok)
+  | .exists i => ((cache, s), .one (.int (if cache.contains i then 1 else 0)))
+  | .flush => (([], s), .one .ok)
+  | .eval i k => let r := E.exec s (.single k getOp); ((NSet.insert i cache, r.1), r.2)
+  | .evalsha i k =>
+    if cache.contains i then (let r := E.exec s (.single k getOp); ((cache, r.1), r.2))
+    else ((cache, s), .one (.err errNoScript))
+
+/-- **the script cache is node-global** (the code: one shared cache): SCRIPT LOAD / EXISTS / FLUSH,
+    EVAL and EVALSHA on `R.N` shards — whichever shards the scripts' keys live on — do to (cache,
+    union of the shards) what they do to one cache and one store, with the same reply -/
+theorem script_cache_global_refines (hL : E.Local) (getOp : S.Op) (R : Routes) (hv : R.Valid)
+    (hN : 0 < R.N) (g : GState S.Val) (h : Inv R g.st) (c : SCmd) :
+    Inv R (execS E getOp R true g c).1.st ∧
+    ((execS E getOp R true g c).1.cache, abs (execS E getOp R true g c).1.st) =
+      (specS E getOp g.cache (abs g.st) c).1 ∧
+    (execS E getOp R true g c).2 = (specS E getOp g.cache (abs g.st) c).2 := by
+  have hk : ∀ k, Inv R (execN E R true g.st (.single k getOp)).1 ∧
+      abs (execN E R true g.st (.single k getOp)).1 = (E.exec (abs g.st) (.single k getOp)).1 ∧
+      (execN E R true g.st (.single k getOp)).2 = (E.exec (abs g.st) (.single k getOp)).2 := by
+    intro k
+    exact routed_by_first_key_refines hL R true h (.single k getOp) rfl rfl (hv k).2
+      (by intro k' hk'; have : k' = k := by simpa [keyList] using hk'
+          rw [this]; rfl)
+  have _ := hN
+  cases c with
+  | load i => exact ⟨h, rfl, rfl⟩
+  | «exists» i =>
+    refine ⟨h, rfl, ?_⟩
+    simp only [execS, specS, Bool.not_true, Bool.false_and, Bool.or_false]
+  | flush => exact ⟨h, rfl, rfl⟩
+  | eval i k =>
+    obtain ⟨a1, a2, a3⟩ := hk k
+    refine ⟨a1, ?_, a3⟩
+    show (NSet.insert i g.cache, abs (execN E R true g.st (.single k getOp)).1) = _
+    rw [a2]; rfl
+  | evalsha i k =>
+    obtain ⟨a1, a2, a3⟩ := hk k
+    cases hc : g.cache.contains i with
+    | true =>
+      simp only [execS, specS, hc, Bool.not_true, Bool.false_and, Bool.or_false, if_true]
+      exact ⟨a1, by rw [a2], a3⟩
+    | false =>
+      simp only [execS, specS, hc, Bool.not_true, Bool.false_and, Bool.or_false, Bool.false_eq_true,
+        if_false]
+      refine ⟨h, ?_, ?_⟩ <;> first | rfl | trivial
+
+end scriptcache
+
+
 /-! ## non-vacuity: the concrete executor is local; a non-trivial routable run on 2 shards -/
 
 open Shards.Str in
@@ -712,6 +769,30 @@ theorem routed_to_shard0_counterexample :
     cmdShard twoRoutes true (.single 2 .get : Cmd Str.sig) = 1 := by decide
 
 end counterexamples
+
+section scriptcex
+open Shards.Str
+
+/-- **a per-shard script cache** (seed C03-eval-caches-script-per-shard): EVAL script 7 on key 1
+    (shard 0), then EVALSHA 7 on key 2 (shard 1) → NOSCRIPT on two shards, a result on one shard;
+    SCRIPT EXISTS 7 (asked of shard 0) after an EVAL on shard 1 → 0 vs 1 -/
+theorem per_shard_script_cache_counterexample :
+    runS Str.exec .get twoRoutes false (ginit SVal 2) [.eval 7 1, .evalsha 7 2]
+      = [.one .nil, .one (.err errNoScript)] ∧
+    runS Str.exec .get oneShard false (ginit SVal 1) [.eval 7 1, .evalsha 7 2]
+      = [.one .nil, .one .nil] ∧
+    runS Str.exec .get twoRoutes false (ginit SVal 2) [.eval 7 2, .exists 7]
+      = [.one .nil, .one (.int 0)] ∧
+    runS Str.exec .get oneShard false (ginit SVal 1) [.eval 7 2, .exists 7]
+      = [.one .nil, .one (.int 1)] := by decide
+
+/-- … and with the shared cache (the code) the same runs agree, also after SCRIPT FLUSH (which is
+    sent to shard 0 only but clears the one cache every shard uses) -/
+example : runS Str.exec .get twoRoutes true (ginit SVal 2) [.eval 7 1, .evalsha 7 2, .exists 7, .flush, .evalsha 7 2]
+    = runS Str.exec .get oneShard true (ginit SVal 1) [.eval 7 1, .evalsha 7 2, .exists 7, .flush, .evalsha 7 2] := by
+  decide
+
+end scriptcex
 
 /-! ## per-shard clocks (timed streams; transcription in `Model/ShardsClock.lean`) -/
 
